@@ -6,6 +6,7 @@ import sqlite3 as _sq
 import time
 
 from . import common
+from . import sched_families as FAM
 from . import sched_graph as SG
 from . import sched_scenarios as SC
 from . import sched_model as M
@@ -17,14 +18,17 @@ MODEL_TARGETS = ["model/Sched.vo", "model/SchedGraph.vo"]
 RULE = ("random build histories driven through the real Workflow/Scheduler API by harness/sched_common.py "
         "(plans with OPTIONAL/DEFAULT/PLAN steps, chains of optional steps, amended inputs, recycled and "
         "dropped children, hold/release, defers up to the cap, resources, exact and directory targets that "
-        "change between phases, external edits). Correspondence: at every real pop_next_job the model's "
+        "change between phases, external edits), plus scripted plan families (harness/sched_families.py: outputs "
+        "adjacent to a target directory in byte order, a resource holder detached while running, deep creation "
+        "chains with a dropped middle level, a detached dynamic input that returns by a full recycle). Correspondence: at every real pop_next_job the model's "
         "update_meta applied to the snapshot before must reproduce every cached column and flag of the "
         "snapshot taken after the three _update_meta_* calls, and the dispatched step must be a member of the "
         "model's dispatch set (empty set when None); hold/release/revert_optional/defer completions are "
         "replayed as model primitives; low-level real calls (set_state, add_source, del_sources, file "
         "set_state, detach, reattach) versus the model primitives. Oracle: the three specifications are "
         "recomputed from the dumped tables by definition in Python at every dispatch decision and at every "
-        "phase end. A tick is non-trivial when at least one flag was set before it; distinct by the pair of "
+        "phase end; no phase ends with a step that only `deferred` keeps back while all its dynamic inputs are "
+        "available; no job outcome leaves the same job dispatchable. A tick is non-trivial when at least one flag was set before it; distinct by the pair of "
         "snapshots")
 TRUSTED_BASE = [
     "Coq 8.16.1 kernel (vm_compute in the refutation witnesses, Examples and correspondence evaluation)",
@@ -219,13 +223,19 @@ def histories(ctx):
         hs = []
         for i in range(nh):
             hs.append(run(_one_history(seed_rng, size, prim_ops=ctx.scale(6, 10) if i % 2 == 0 else 0), timeout=120))
+        # scripted plan families (harness/sched_families.py): shapes the random plans rarely reach
+        fam_rng = random.Random(f"C10-families-{ctx.seed}")
+        for name in FAM.FAMILIES:
+            for _ in range(ctx.scale(2, 25)):
+                hs.append(run(FAM.family_history(name, fam_rng), timeout=120))
+                ctx.count("family_histories." + name)
         ctx._c10_hist = hs
         ctx.stats["t_histories_s"] = round(time.time() - t0, 1)
         agg = {}
         for h in hs:
             for k, v in h["stats"].items():
                 agg[k] = agg.get(k, 0) + v
-        ctx.stats["histories"] = nh
+        ctx.stats["histories"] = len(hs)
         ctx.stats["history_events"] = sum(len(h["events"]) for h in hs)
         ctx.stats["ops"] = {k[3:]: v for k, v in sorted(agg.items()) if k.startswith("op.")}
         ctx.stats["shapes"] = {k[6:]: v for k, v in sorted(agg.items()) if k.startswith("shape.")}
@@ -415,6 +425,8 @@ def _projection_cases(ctx, hs):
         ctx._c10_scen = [{"events": run(SC.scenario(v), timeout=120), "scenario": v[0]} for v in SC.VARIANTS]
     hs = list(hs) + ctx._c10_scen
     for hi, h in enumerate(hs):
+        if "family" in h and not ctx.thorough():
+            continue    # quick tier: the scripted families are judged by the tick correspondence and the oracles
         for ei, ev in enumerate(h["events"]):
             if "scenario" in h and "rejected" in ev:
                 ctx.add_failure("harness", "scenario", "scenario:rejected-step",
@@ -623,6 +635,7 @@ def oracle(ctx):
     shapes = []
     for hi, h in enumerate(hs):
         root = {}       # (column, key) of a stale value that no flag covers -> signature of what caused it
+        parked_by = {}  # step key -> the operation that set its deferred flag
         for ei, ev in enumerate(h["events"]):
             if "error" in ev:
                 fail(f"history-error:{ev['op']}", "history", f"the real API raised in {ev['op']}: {ev['error'][-600:]}",
@@ -685,6 +698,11 @@ def oracle(ctx):
                 root = {x: (root.get(x) or sig_of.get(x) or f"flaginv:{x[0]}:tick") for x in _violations(va)}
                 continue
             va = M.View(after)
+            if before is not None:
+                was = {s["key"]: s["deferred"] for s in before["steps"]}
+                for s in after["steps"]:
+                    if s["deferred"] and not was.get(s["key"]):
+                        parked_by[s["key"]] = op if op != "end" else "defer"
             if before is not None and _edge_dropped_while_lower_consumer_stays(before, after):
                 ctx.count("events_dropping_an_edge_while_a_lower_need_consumer_stays")
             newv = _violations(va)
@@ -726,6 +744,24 @@ def oracle(ctx):
                          f"the build phase ended although {[M.label_of(after, k) for k in elig]} are eligible by definition",
                          {**where, "eligible": [M.label_of(after, k) for k in elig], "stale": {M.label_of(after, k): list(v) for k, v in stale.items()},
                           "after": after})
+            if op == "phase_end" and not after["draining"]:
+                # a parked step: deferred is justified by a dynamic input that is not available (it is
+                # cleared by mark_step_pending when such an input changes).  A phase must not end with a
+                # step that only the flag keeps from being dispatched while all its dynamic inputs are there
+                for k, s in va.steps.items():
+                    if s["state"] != M.PENDING or s["detached"] or not s["deferred"]:
+                        continue
+                    ctx.case(("oracle-phase-end-deferred", repr(s), repr(after["deps"])), True)
+                    dyn = [va.files[d["src"]] for d in va.in_edges.get(k, []) if d["dyn"] and d["src"] in va.files]
+                    if any(f["state"] not in (M.FS.CONFIRMED.value, M.FS.BUILT.value) for f in dyn):
+                        continue
+                    if va.eligible_spec(k, ignore_deferred=True):
+                        fail(f"phase-end:deferred-step-with-available-inputs:parked-by-{parked_by.get(k, 'unknown')}", "phase-end",
+                             f"the build phase ended with step {s['label']!r} PENDING, attached, needed, safe and ready, all its "
+                             f"dynamic inputs {[(f['label'], f['state']) for f in dyn]} available, but deferred: nothing will clear "
+                             f"the flag (no input is going to change), the step is never built",
+                             {**where, "step": s["label"], "dynamic_inputs": [[f["label"], f["state"], f["detached"]] for f in dyn],
+                              "after": after})
             if op == "end" and ev["args"].get("wants_defer") and before is not None and not ev["args"].get("stored_hash"):
                 k = ev["args"]["step"]
                 sb, sa = _step_row(before, k), _step_row(after, k)
